@@ -2,6 +2,7 @@ import Proofs.Lemmas.Teardown
 import Proofs.Lemmas.Census
 import Proofs.Lemmas.Registry
 import Proofs.Props.C12
+import Proofs.Lemmas.RegAtomic
 /-!
   C14 — finished RPCs and finished tunnels leave nothing behind.
 
@@ -117,5 +118,27 @@ theorem C14_client_after_tunnel_end (cfg : CCfg) (xs : List (CStim α)) :
     let c := (Cli.run cfg (Cli.start cfg : Cli α) xs).1
     c.finished.isSome = true → cliCensus c = 0 :=
   Proofs.Census.client_census_after_close cfg xs
+
+/-! ### the registry after the tunnels ended, under every interleaving (`TunnelModel/RegAtomic.lean`) -/
+
+open TunnelModel.RegAtomic Proofs.RegAtomic in
+/-- **Nothing is left in the registry**: whatever the interleaving of the
+    registration steps, the closes (at any moment, even before registration) and
+    the `unregister` callbacks, once every tunnel is closed and every goroutine
+    has finished, the global pool and every per-key pool are empty. -/
+theorem C14_registry_nothing_left_behind (keys : List Nat) (as : List Act) {s : St}
+    (hr : run true false (init keys) as = some s) (hover : allOver s = true) :
+    s.global = [] ∧ (∀ l ∈ s.pools, l = []) ∧ ∀ k, keyPool s k = [] :=
+  nothing_left_behind keys as hr hover
+
+open TunnelModel.RegAtomic Proofs.RegAtomic in
+/-- **Why there are two independent deferred removes** (the seeded change
+    C14-unregister-instead-of-two-removes): with one deferred `unregister`
+    instead, a tunnel closed between the two registration steps stays in its
+    key's pool for good. -/
+theorem C14_single_unregister_leaves_entry :
+    ∃ s, run true true (init [7]) (closedInBetween [.sRemGlobal 0]) = some s ∧ allOver s = true ∧
+      ¬ (∀ l ∈ s.pools, l = []) :=
+  faulty_single_unregister_not_empty
 
 end Proofs.C14
